@@ -8,6 +8,7 @@ without asking the library.  Expected block and vertex counts come from the docu
 
 from __future__ import annotations
 
+import copy
 import math
 import warnings
 from typing import Any, Callable, Dict, List, Optional, Sequence, Tuple
@@ -57,6 +58,52 @@ def placements(draw):
                "aligned": False}
     rot["o"] = [draw(st.floats(-10.0, 10.0)) for _ in range(3)]
     return rot
+
+
+# far placements: offset = ratio x (size of the shape) along a general direction
+FAR_RATIOS = [1e3, 1e5, 1e6]
+# The library compares dot products of caller-supplied difference vectors with an absolute TOL = 1e-7 (perpendicularity
+# of axis and radius in Cylinder / Frustum / Annulus).  Coordinates of magnitude C carry an error of eps * C, a dot
+# product with a vector of length <= 5 r an error of about 4 * eps * C * 5 r; keeping that below 1e-9 (100x under TOL)
+# needs C * r <= 2e5, i.e. ratio * r^2 <= 2e5: for a far placement the size r is reduced to meet it.
+FAR_LIMIT = 2e5
+
+
+@st.composite
+def far_offsets(draw):
+    """None (2 in 3), or {"ratio", "dir"}: where a far placement puts the shape"""
+    if draw(st.sampled_from([False, False, True])):
+        k = draw(st.integers(0, 2))
+        d = [draw(st.floats(0.15, 1.0)) * draw(st.sampled_from([-1.0, 1.0])) for _ in range(3)]
+        d[k] = draw(st.sampled_from([-1.0, 1.0]))
+        return {"ratio": draw(st.sampled_from(FAR_RATIOS)), "dir": d}
+    return None
+
+
+def settle_far(case: dict, far_place, far_post) -> dict:
+    """writes the far offsets into place["o"] / post["t"] (plain numbers) and caps the size so that the library's own
+    absolute tolerances stay 100x away; returns the case"""
+    if far_post is not None and case.get("post") is None:
+        far_post = None
+    fars = [f for f in (far_place, far_post) if f is not None]
+    if not fars:
+        return case
+    case = copy.deepcopy(case)
+    holder = case if "r" in case else case["sketch"]
+    ratio = sum(f["ratio"] for f in fars)
+    holder["r"] = min(holder["r"], math.sqrt(FAR_LIMIT / ratio))
+    r = holder["r"]
+    if far_place is not None:
+        case["place"]["o"] = (rm.unit(far_place["dir"]) * far_place["ratio"] * r).tolist()
+        case["place"]["far"] = far_place["ratio"]
+    if far_post is not None:
+        case["post"]["t"] = (rm.unit(far_post["dir"]) * far_post["ratio"] * r).tolist()
+        case["post"]["far"] = far_post["ratio"]
+    return case
+
+
+def far_ratio(case) -> float:
+    return max(case["place"].get("far", 0.0), (case.get("post") or {}).get("far", 0.0))
 
 
 def frame(place) -> np.ndarray:
